@@ -116,6 +116,8 @@ class World:
         self.phase = 'prog'
         self.extra: dict = {}
         self._in_watch = False
+        self._seen_errs = {}
+        self._keep_errs = []
         seams.set_bus_order(self.scn.get('order'))
 
     # ---- recorder ---------------------------------------------------------------------------------
@@ -130,7 +132,20 @@ class World:
         sig = e.event_completed_signal
         return (e.event_status, bool(sig.is_set()) if sig is not None else None,
                 tuple((r.eventbus_name, r.handler_name.rsplit('.', 1)[-1], r.status, repr(r.result)[:24] if not isinstance(r.result, BaseEvent) else 'ev:' + self.name_of(r.result),
-                       self.exc_name(r.error)) for r in e.event_results.values()))
+                       self.exc_label(r.error)) for r in e.event_results.values()))
+
+    def exc_label(self, err):
+        """like exc_name, but two different exception OBJECTS made by the library get different labels (TypeName~k, k = order of first sighting in
+        this execution): replacing the recorded error of a result by another object of the same type is a change of that result"""
+        if err is None:
+            return None
+        if id(err) in self.excs:
+            return self.excs[id(err)]
+        k = self._seen_errs.get(id(err))
+        if k is None:
+            k = self._seen_errs[id(err)] = len(self._seen_errs) + 1
+            self._keep_errs.append(err)  # keeps id(err) from being reused
+        return f'{type(err).__name__}~{k}'
 
     def exc_name(self, err):
         if err is None:
@@ -475,6 +490,10 @@ class World:
             b = HBus(name=name, parallel_handlers=cfg.get('parallel', False), max_history_size=cfg.get('hist', 50), **kw)
             b.world = self
             self.buses[name] = b
+        # a second EventBus constructed with the name of an existing one (legitimate: the library warns and renames the newcomer); kept alive, never used
+        self.twins = [HBus(name=n) for n in self.scn.get('dup_names', [])]
+        for t in self.twins:
+            t.world = self
         if self.scn.get('reg'):
             # explicit registration order: ('h', index into handlers) | ('f', src, dst); replaces forwards / fwd_first
             for r in self.scn['reg']:
